@@ -130,6 +130,17 @@ CHECKS = {
             'Known findings: a comment ending in a backslash swallows the next line; backslash-newline inside a raw string is removed '
             '(both from the textual continuation unfolding).',
             'DESIGN.md 2/C15'),
+    'C16': ('model_checking',
+            'explicit enumeration of call-tree histories against a list-as-stack reference model + exhaustive schedule exploration of the real code under a cooperative scheduler with preemption bounding',
+            'Histories: every call tree with <= 3 nodes (thorough 4) over 13 node kinds x raising node (entry/exit, Exception or '
+            'BaseException) x catching ancestor (~103k executions quick) is run on the real wrappers and compared observation by '
+            'observation with the reference model; identity of the context object is checked around every call. Schedules: 2-3 '
+            'threads each running a tree under the scheduler (scheduling point at every traced line of ag_ctx.py and '
+            'function_wrappers.py), all schedules with <= 1 preemption for 15 pairs and <= 2 for 2 pairs (23k schedules, none '
+            'truncated); each thread must observe what it observes alone.',
+            'Scheduling points = traced lines of the two context modules; 1..32 randomly started threads of the quantifier are '
+            'replaced by the exhaustive 2-3 thread core (not claimed).',
+            'DESIGN.md 2/C16'),
     'C17': ('exploration',
             'bounded-exhaustive program x option-set enumeration; the tree handed to loader.load_ast is checked against its own printed, loaded and re-parsed form',
             'For ~10.6k (program, option set, with/without __future__ import) combinations (C01 menus + a 23-kind literal/expression '
